@@ -296,7 +296,8 @@ def check(prop, tier):
                 n_replayed += 1
                 kf = open_by_replay.get(f)
                 if st == "fail":
-                    if kf is not None:
+                    # a listed open finding only covers its own signature: anything else the file now shows is a violation
+                    if kf is not None and sig == kf["id"]:
                         log("KNOWN-FINDING: property=%s %s [%s]" % (prop, kf["what"], kf["id"]))
                     else:
                         violations.append((f, msg))
